@@ -12,7 +12,11 @@
                     charged when placed (AcceptedResource), and equal to it when the pods sit on devices of the
                     memory the session divides by ([size_ok]; Model/ClosedSystem.v never_undercounted /
                     size_consistent, theorems C15_sized_no_lasso / C15_undercounted_gate_refuted).
-    [model_agrees] - class stream only: every real cycle is a cycle of Model/ClosedSystem.v
+    [model_agrees] - every stream with single-pod whole-GPU jobs: the saturation rule at function level
+                    ([sats_agree]: for every reclaim eviction the real action committed, on the queue attributes the
+                    validator was handed, the model's [saturation_ok] with the clamped multiplier ON THE RECLAIMER'S
+                    RATIO admits what the real reclaimable.Reclaimable admitted);
+                    class stream only: every real cycle is a cycle of Model/ClosedSystem.v
                     (refinement): the parameters meet the hypotheses of the class, a pod
                     every real bind / reclaim / preempt is admissible in the abstract decision relation
                     with the CLAMPED multiplier, the cycle has the shape allocate* evict*, the
@@ -47,6 +51,19 @@ Record ccycle := mkCy {
   cy_sizes : list sizeobs;                   (* gate size vs charged size of every job placed in the cycle *)
 }.
 
+(** one saturation observation (harness/internal/c15/satgate.go SatObs): a pair of queues the real
+    reclaimingQueuesRemainWithinBoundaries compared for a reclaim eviction the action COMMITTED, on the queue attributes
+    the validator was handed (rebuilt by the harness), all four figures scaled by one power of two to integers *)
+Record satobs := mkSat {
+  so_cycle : nat;
+  so_x : Z;        (* reclaimer side: allocated - victims + request *)
+  so_Fr : Z;       (* ... its fair share *)
+  so_y : Z;        (* sibling: allocated - victims *)
+  so_Fe : Z;       (* ... its fair share *)
+  so_ref : bool;   (* the documented rule as the harness evaluates it (exactly): admits *)
+  so_real : bool;  (* the REAL reclaimable.Reclaimable admitted reclaimer + victims on those attributes *)
+}.
+
 Record case := mkCase {
   k_stream : nat;            (* 0 = class of theorem C15_rank_decreases, 1 = general, 2 = hierarchical, 3 = sized (monitor only) *)
   k_params : params;         (* class: shares scaled to integers; jobs = pods *)
@@ -55,6 +72,7 @@ Record case := mkCase {
   k_state0 : wstate;
   k_cycles : list ccycle;
   k_bound : nat;
+  k_sats : list satobs;      (* every stream with single-pod whole-GPU jobs *)
 }.
 
 (** * monitor *)
@@ -198,7 +216,23 @@ Fixpoint order_consistent_gen (all : bool) (prev : list (nat * positive * positi
 Definition order_consistent := order_consistent_gen false.
 Definition order_consistent_all := order_consistent_gen true.
 
+(** * the saturation rule, function level (every stream that carries observations) *)
+(** [saturation_ok mn md 0 x Fr y Fe] is isFairShareSaturationLowerPerResource on the pair, with the CLAMPED multiplier
+    on the reclaimer's ratio.  Demanded: the harness's own evaluation of the documented rule is the model's (the lasso
+    tag GATE-ADMITS-WHAT-THE-SATURATION-RULE-REFUSES rests on it), and whatever the real Reclaimable admitted the model's
+    rule admits (the real verdict also covers the strategies, so nothing is demanded when it refused). *)
+Definition sat_model (m : Z * Z) (o : satobs) : bool :=
+  saturation_ok (fst m) (snd m) 0 (so_x o) (so_Fr o) (so_y o) (so_Fe o).
+Definition sat_agrees (m : Z * Z) (o : satobs) : bool :=
+  Bool.eqb (sat_model m o) (so_ref o) && implb (so_real o) (sat_model m o).
+Definition sats_agree (k : case) : bool :=
+  match k_sats k with
+  | [] => true
+  | l => (0 <? snd (k_mult k)) && forallb (sat_agrees (clamp (k_mult k))) l
+  end.
+
 Definition model_agrees (k : case) : bool :=
+  sats_agree k &&
   match k_stream k with
   | O =>
       k_exact k && wf_paramsb (k_params k) && (0 <? snd (k_mult k))
